@@ -12,6 +12,10 @@ INVARIANT PlugInOK
 INVARIANT PlugOutOK
 INVARIANT IdentityOK
 INVARIANT XToZOK
+INVARIANT SubgraphOK
+INVARIANT CopyOK
+INVARIANT FlipSpecOK
+INVARIANT PlugVertexOK
 INVARIANT PlugOK
 INVARIANT AppendOK
 CHECK_DEADLOCK FALSE
